@@ -777,6 +777,28 @@ MUTANTS = [
     dict(name='c09-bounded-push-abort-leaks-ticket', prop='C09', clause='D2', edits=[
         (CQ_H, "            }).on_exception( [&] {\n                my_queue_representation->choose(ticket).abort_push(ticket, *my_queue_representation, my_allocator);\n            });",
          "            }).on_exception( [&] {\n            });")]),
+    dict(name='c09-seed3-invalid-entry-bypasses-the-finalizer', prop='C09', clause='D3', edits=[('include/oneapi/tbb/detail/_concurrent_queue_base.h', """        bool success = false;
+        {
+            page_allocator_type page_allocator(allocator);
+            micro_queue_pop_finalizer<self_type, value_type, page_allocator_type> finalizer(*this, page_allocator,
+                k + queue_rep_type::n_queue, index == items_per_page - 1 ? p : nullptr );
+            if (p->mask.load(std::memory_order_relaxed) & (std::uintptr_t(1) << index)) {
+                success = true;
+                assign_and_destroy_item(dst, *p, index);
+            } else {
+                --base.n_invalid_entries;
+            }
+        }
+        return success;""", """        if (!(p->mask.load(std::memory_order_relaxed) & (std::uintptr_t(1) << index))) {
+            --base.n_invalid_entries;
+            head_counter.store(k + queue_rep_type::n_queue, std::memory_order_release);
+            return false;
+        }
+        page_allocator_type page_allocator(allocator);
+        micro_queue_pop_finalizer<self_type, value_type, page_allocator_type> finalizer(*this, page_allocator,
+            k + queue_rep_type::n_queue, index == items_per_page - 1 ? p : nullptr );
+        assign_and_destroy_item(dst, *p, index);
+        return true;""")]),
     # ---------------------------------------------------------------- C10
     dict(name='c10-exclude-reader-bucket', prop='C10', clause='D1', edits=[
         (CHM_H, "            bucket_accessor b( this, hash & mask, /*writer=*/true );", "            bucket_accessor b( this, hash & mask );")]),
